@@ -387,3 +387,65 @@ Proof.
   unfold has_nl in Hn. cbn [has_char] in Hn. apply orb_false_iff in Hn as [_ Hn].
   rewrite (find_on_line_app "`" b rest Hq Hn). reflexivity.
 Qed.
+
+(* ---------- a namespaced function name: IDENT(.fnc-chars)* blanks ( … ---------- *)
+(* first segment an identifier that is no keyword, then any run of [_A-Za-z0-9.] (np.sqrt, a.b.c, f) *)
+Definition fname (n : string) : bool :=
+  let '(seg, more) := span_while is_idc n in
+  ident seg && negb (existsb (String.eqb seg) KW) && all_chars is_fnc more.
+
+Lemma span_while_split p s : forall a b, span_while p s = (a, b) -> s = a ++ b /\ all_chars p a = true /\ head_ok (fun c => negb (p c)) b = true.
+Proof.
+  induction s as [|c s IH]; intros a b H; cbn [span_while] in H.
+  - inversion H; subst. repeat split.
+  - destruct (p c) eqn:E.
+    + destruct (span_while p s) as [a' b'] eqn:Es. inversion H; subst. destruct (IH a' b eq_refl) as (-> & Ha & Hb).
+      repeat split; auto. cbn [all_chars]. rewrite E, Ha. reflexivity.
+    + inversion H; subst. repeat split. cbn [head_ok]. rewrite E. reflexivity.
+Qed.
+
+Lemma existsb_eqb_false n l : existsb (String.eqb n) l = false -> ~ In n l.
+Proof.
+  induction l as [|k r IH]; cbn [existsb In]; [tauto|]. intros H. apply orb_false_iff in H as [H1 H2].
+  intros [E|E]; [subst; rewrite String.eqb_refl in H1; discriminate|exact (IH H2 E)].
+Qed.
+
+Theorem match_here_function_dotted pw name ws rest :
+  fname name = true -> all_chars is_space ws = true ->
+  match_here pw (name ++ ws ++ String "(" rest)
+  = Some (mkMatch KFunction name None (String.length name + String.length ws)).
+Proof.
+  unfold fname. destruct (span_while is_idc name) as [seg more] eqn:Es. intros H Hw.
+  apply andb_true_iff in H as [H Hm]. apply andb_true_iff in H as [Hi Hk].
+  apply negb_true_iff, existsb_eqb_false in Hk.
+  destruct (span_while_split _ _ _ _ Es) as (-> & Hseg & Hmore).
+  (* the text after the first segment: more ++ ws ++ "(" … starts with a non-identifier character *)
+  assert (H2 : head_ok (fun c => negb (is_idc c)) (more ++ ws ++ String "(" rest) = true).
+  { destruct more as [|d m]; [|exact Hmore]. cbn [append].
+    destruct ws as [|d w]; cbn [append head_ok]; [reflexivity|].
+    cbn [all_chars] in Hw. apply andb_true_iff in Hw as [Hd _]. destruct (space_facts d Hd) as (-> & _). reflexivity. }
+  rewrite app_assoc_s.
+  destruct (head_alternatives_fail pw seg _ Hi Hk H2) as (V & I & K).
+  unfold match_here, or_else. rewrite V, I, K.
+  assert (Hn : all_chars is_fnc (seg ++ more) = true).
+  { clear - Hseg Hm. induction seg as [|c s IH]; cbn [append all_chars] in *; [exact Hm|].
+    apply andb_true_iff in Hseg as [Hc Hs]. destruct (idc_facts c Hc) as (-> & _). cbn [andb]. exact (IH Hs). }
+  assert (H1 : head_ok (fun c => negb (is_fnc c)) (ws ++ String "(" rest) = true).
+  { destruct ws as [|d w]; cbn [append head_ok]; [reflexivity|].
+    cbn [all_chars] in Hw. apply andb_true_iff in Hw as [Hd _]. destruct (space_facts d Hd) as (_ & -> & _). reflexivity. }
+  unfold try_function.
+  assert (Hc : exists c' r', seg ++ more ++ ws ++ String "(" rest = String c' r' /\ is_alpha_ c' = true).
+  { destruct seg as [|c s]; [discriminate|]. cbn [append]. cbn [ident] in Hi. apply andb_true_iff in Hi as [Ha _]. eauto. }
+  destruct Hc as (c' & r' & Er & Ha). rewrite Er, Ha. rewrite <- Er.
+  rewrite <- (app_assoc_s seg more). rewrite (span_while_app is_fnc (seg ++ more) _ Hn H1).
+  assert (H3 : head_ok (fun c => negb (is_space c)) (String "(" rest) = true) by reflexivity.
+  rewrite (span_while_app is_space ws _ Hw H3). reflexivity.
+Qed.
+
+Lemma ident_fname n : ident n = true -> ~ In n KW -> fname n = true.
+Proof.
+  intros Hi Hk. unfold fname. pose proof (ident_idc _ Hi) as Hn.
+  pose proof (span_while_app is_idc n "" Hn eq_refl) as E. rewrite app_nil_r_s in E. rewrite E, Hi. cbn [all_chars andb].
+  rewrite andb_true_r. apply negb_true_iff. destruct (existsb (String.eqb n) KW) eqn:X; [|reflexivity].
+  exfalso. apply existsb_exists in X as (k & Hin & Heq). apply String.eqb_eq in Heq. subst. exact (Hk Hin).
+Qed.
